@@ -105,3 +105,64 @@ Definition matches_opt (exact : bool) (o : option obs) (r : option res) : bool :
 (* helpers for the driver: decimal tokens -> Z without going through machine integers *)
 Definition z_push_digit (acc : Z) (d : Z) : Z := acc * 10 + d.
 Definition mkq (n : Z) (d : Z) : Q := match d with Zpos p => Qred (n # p) | _ => 0 end.
+
+(* ---------- the float64 error budget of the variance family ----------
+   The definitions above are over exact rationals; the code computes in float64.  On the generated inputs (ints and
+   dyadic float64s whose running sums are exactly representable) sum / min / max / count / median / percentile are
+   exact and avg is one rounded division, but the variance family is not: its error grows with the MAGNITUDE of the
+   values relative to their spread (counters, epoch milliseconds, large negative offsets), and a comparison that is
+   to tell a sound algorithm from an unsound one there needs the error bound of the sound one.  u = 2^-53.
+
+   Two-pass algorithm (stddev / stddevs / var / vars: *AggregatorFunction.Result).  The running sum is exact, so the
+   mean the code uses is c = fl(s/n), |c - mu| <= u |mu| <= u M, M = max |x|.  The second pass sums
+   fl(fl(x - c)^2): every term carries a RELATIVE error <= 3u, the summation one of <= n u, and
+        sum (x - c)^2 = sum (x - mu)^2 + n (c - mu)^2         (two_pass_shifted_mean, Proofs/AggFloat.v)
+   so the error of the mean enters in SECOND order only:
+        | var^ - var | <= (n+3) u var + (c - mu)^2 (n / (n-1))  <=  2^-40 var + 2 (u M)^2.
+   [two_pass_slack] = 2 (2u M)^2 (a factor 4 in hand).  For |x| < 2^20 it is below 2^-63, for the values
+   1e9+1 .. 1e9+4 it is 1e-13, for 1.7e12 (epoch ms) 3e-7, for 1e15 it reaches 0.1.  The textbook one-pass formula
+   sum x^2 - (sum x)^2 / n, equal over the rationals (sqdev_alt), has an error of the order u n M^2 instead - 1e2 at
+   M = 1e9 - and falls outside the bound as soon as M^2 u exceeds the variance.
+
+   Welford recurrence (the exported StdDevFunction / VarFunction ...): mean_k = fl(mean_{k-1} + fl(fl(x - mean_{k-1}) / k)),
+   m2 += fl(fl(x - mean_{k-1}) * fl(x - mean_k)).  The error e_k of mean_k obeys e_k = e_{k-1} (k-1)/k + rho_k with
+   |rho_k| <= u M + 2u R / k (R = max - min >= |x - mean|), hence |e_k| <= u M (k+1)/2 + 2u R <= (k/2 + 5) u M <= E (R <= 2M);
+   an increment differs from the exact (x - mu_{k-1})(x - mu_k) by e_{k-1}(x - mu_k) + e_k (x - mu_{k-1}) - e_{k-1} e_k,
+   at most 2 E R + E^2 - FIRST order in the error of the mean.  [welford_slack] = 2 (2 E R + E^2), E = 2u (n+4) M.
+   Both slacks come on top of the relative tolerance 2^-30 and the absolute 2^-40 of [close]. *)
+Definition fl_eps : Q := 1 # (2 ^ 52).                                   (* 2u *)
+Definition qmaxq (a b : Q) : Q := if Qle_bool a b then b else a.
+Definition maxabs (l : list Q) : Q := fold_right (fun x m => qmaxq (Qabs x) m) 0 l.
+Definition qrange (l : list Q) : Q := match l with [] => 0 | x :: l' => greatest x l' - least x l' end.
+Definition two_pass_slack (l : list Q) : Q := let d := Qred (maxabs l * fl_eps) in Qred (2 * (d * d)).
+Definition welford_slack (l : list Q) : Q :=
+  let e := Qred (qnat (length l + 4) * maxabs l * fl_eps) in Qred (2 * (2 * e * qrange l + e * e)).
+(* the absolute float64 slack of aggregate f over the values vs (0 for everything outside the variance family) *)
+Definition fl_slack (f : agg) (vs : list value) : Q :=
+  match f with
+  | AStdDev | AStdDevS | AVar | AVarS => two_pass_slack (nums vs)
+  | WStdDev | WStdDevS | WVar | WVarS => welford_slack (nums vs)
+  | _ => 0
+  end.
+Definition fl_slack_batch (f : agg) (m : mode) (cells : list cell) : Q :=
+  match m with MStar => 0 | _ => fl_slack f (present cells) end.
+
+Definition close_s (exact : bool) (s : Q) (r q : Q) : bool :=
+  if exact then Qeq_bool r q
+  else Qle_bool (Qabs (r - q)) (Qabs q * tol + slack + s).
+Definition matches_s (exact : bool) (s : Q) (o : obs) (r : res) : bool :=
+  match o, r with
+  | OVal VNull, RNull => true
+  | OVal (VFlt x), RNum q => close_s exact s x q
+  | OVal (VFlt x), RSqrt q => Qle_bool 0 x && close_s false s (x * x) q
+  | OVal v, RVal w => value_eqb v w
+  | OVal (VStr s), RText t => bytes_eqb s t
+  | OList l, RList l' => values_eqb l l'
+  | _, _ => false
+  end.
+Definition matches_opt_s (exact : bool) (s : Q) (o : option obs) (r : option res) : bool :=
+  match o, r with
+  | None, None => true
+  | Some o, Some r => matches_s exact s o r
+  | _, _ => false
+  end.
